@@ -110,6 +110,60 @@ def se3(r, t):
     return m
 
 
+FLAVOURS = ["int", "f32", "strided", "readonly", "list", "shared"]
+
+
+def flav(a, f):
+    """the same values as another array flavour (value-preserving only: integral -> int64, float32 only if exact)"""
+    a = np.asarray(a, dtype=float)
+    if f == "int":
+        return a.astype(np.int64) if a.size and np.all(a == np.round(a)) else a
+    if f == "f32":
+        b = a.astype(np.float32)
+        return b if np.array_equal(b.astype(float), a) else a
+    if f == "strided":
+        big = np.zeros((2 * a.shape[0],) + a.shape[1:])
+        big[::2] = a
+        return big[::2]
+    if f == "readonly":
+        b = a.copy()
+        b.setflags(write=False)
+        return b
+    if f == "list":
+        return a.tolist()
+    return a
+
+
+def flav_ts(a, f):
+    """stamps: not as float32 (numpy compares a float32 array with a Python float in float32: bounds would be rounded)"""
+    return flav(a, None if f == "f32" else f)
+
+
+def flav_pose(m, f):
+    # int / float32 pose MATRICES are not supported by evo under numpy 2 (quaternion_from_matrix uses
+    # numpy.array(..., dtype=float64, copy=False), which raises): matrices stay float64
+    if f == "strided":
+        big = np.zeros((8, 8))
+        big[::2, ::2] = m
+        return big[::2, ::2]
+    if f == "readonly":
+        b = m.copy()
+        b.setflags(write=False)
+        return b
+    return m
+
+
+def flav_poses(mats, f):
+    """list of 4x4 matrices in flavour f; 'shared': equal consecutive poses are ONE ndarray object ([P]*k)"""
+    out = []
+    for m in mats:
+        if f == "shared" and out and np.array_equal(out[-1], m):
+            out.append(out[-1])
+        else:
+            out.append(flav_pose(m, f))
+    return out
+
+
 # ----------------------------------------------------------------------------- generators
 def gen_ds(ctx):
     r = ctx.rng
@@ -120,6 +174,15 @@ def gen_ds(ctx):
             yield {"kind": "ds", "n": n, "N": N, "rep": reps[(n + N) % 3]}
     for n in (1, 2, 5, 50):
         yield {"kind": "ds", "n": n, "N": 0, "rep": "xyz"}
+    # structured sizes 2^k-1, 2^k, 2^k+1 beyond the exhaustive range; N as numpy integer; array flavours
+    pw = sorted({2 ** k + d for k in range(1, 13) for d in (-1, 0, 1)} - {0})
+    for n in [x for x in pw if x > nmax]:
+        for N in [x for x in pw if x <= n + 1 and (x < 40 or x * 8 >= n)] + [n - 1, n, n + 1]:
+            yield {"kind": "ds", "n": n, "N": N, "rep": reps[(n + N) % 3], "Ntype": ("int", "np64", "np32")[(n + N) % 3]}
+    for k in range(240):
+        n = r.choice(pw[:24] + [r.randint(2, 300)])
+        yield {"kind": "ds", "n": n, "N": r.randint(1, n + 1), "rep": reps[k % 3], "Ntype": r.choice(["np64", "np32", "int"]),
+               "flavour": FLAVOURS[k % 6]}
     for _ in range(2500 if ctx.thorough else 300):
         n = r.randint(nmax + 1, 5000)
         N = r.choice([r.randint(1, n + 2), r.randint(1, n + 2), r.randint(2, 60), n - r.randint(1, 5), (n - 1) // r.randint(2, 40) + 1])
@@ -253,7 +316,16 @@ def gen_crop(ctx):
         s, e = bound(), bound()
         if s is not None and e is not None and s > e and r.random() < 0.85:
             s, e = e, s
-        yield {"kind": "crop", "ts": ts, "s": s, "e": e}
+        if k % 10 == 7 and s is not None:
+            e = s                                          # start == end
+        c = {"kind": "crop", "ts": ts, "s": s, "e": e}
+        if k % 6 == 1:                                     # unsorted and duplicate stamps: evo accepts them
+            ts2 = list(ts) + [r.choice(ts) for _ in range(r.randint(0, 3))]
+            r.shuffle(ts2)
+            c["ts"] = ts2
+        if k % 7 == 2:
+            c["flavour"] = r.choice(FLAVOURS[:5])
+        yield c
 
 
 def gen_split(ctx):
@@ -287,7 +359,16 @@ def gen_split(ctx):
                 thr = r.choice([0, 2.5, 3, 5, 7, 10, 13, 25, 26, 40, 1000])
             else:
                 thr = r.choice([0, 1, 2.5, 3, 5, 6, 10, 12, 13, 20, 26, 52, 1000])
-            yield {"kind": kind, "mode": "grid", "steps": steps, "ts": ts, "thr": float(thr)}
+            c = {"kind": kind, "mode": "grid", "steps": steps, "ts": ts, "thr": float(thr)}
+            if k % 11 == 3:
+                c["thr"] = -float(r.choice([0.5, 1, 5]))        # negative threshold: every step exceeds it
+            if kind != "splits" and k % 9 == 1 and n > 1:
+                ts2 = list(ts) + [r.choice(ts)]                  # unsorted + duplicate stamps
+                r.shuffle(ts2)
+                c["ts"] = ts2[:n]
+            if k % 8 == 5:
+                c["flavour"] = r.choice(FLAVOURS)
+            yield c
         else:
             big = ctx.thorough and k % 50 == 4
             ts = rand_stamps(r, r.randint(1, 5000 if big else 150))
@@ -312,6 +393,8 @@ def gen_merge(ctx):
     yield {"kind": "merge", "stamps": [[0.0, 2.0, 4.0], [1.0, 2.0, 3.0]]}
     yield {"kind": "merge", "stamps": [[5.0, 6.0], [1.0, 2.0]]}
     yield {"kind": "merge", "stamps": [[1.0]]}
+    yield {"kind": "merge", "stamps": [[1.0, 2.0]], "twice": 0}
+    yield {"kind": "merge", "stamps": [[1.0, 3.0], [2.0, 4.0], [0.0, 5.0]], "twice": 1}
     for k in range(3000 if ctx.thorough else 900):
         m = r.randint(1, 6)
         if k % 3 != 2:
@@ -330,10 +413,15 @@ def gen_merge(ctx):
                     stamps[r.randrange(m)].append(t)                  # duplicates across / within
             stamps = [sorted(s) for s in stamps if s]
             r.shuffle(stamps)
-        yield {"kind": "merge", "stamps": stamps}
+        c = {"kind": "merge", "stamps": stamps}
+        if k % 7 == 3:
+            c["stamps"] = [r.sample(x, len(x)) for x in stamps]     # unsorted inputs
+        if k % 5 == 1:
+            c["twice"] = r.randrange(len(stamps))                    # the same object passed twice
+        yield c
 
 
-READS = ["distances", "distances", "path_length", "speeds", "positions_xyz", "poses_se3", "orientations_quat_wxyz"]
+READS = ["distances", "distances", "path_length", "speeds", "positions_xyz", "poses_se3", "orientations_quat_wxyz", "check"]
 
 
 def gen_hist(ctx):
@@ -405,12 +493,40 @@ def gen_hist(ctx):
                 base = o["stamps"][0] % 0.25
                 new = offs.pop(0)
                 o["stamps"] = [t - base + new for t in o["stamps"]]
-        yield {"kind": "hist", "route": r.choice(["se3", "xyz"]), "inspect": r.random() < 0.5, "ts": ts, "steps": steps,
-               "rots": rots, "ops": ops}
+        c = {"kind": "hist", "route": r.choice(["se3", "xyz"]), "inspect": r.random() < 0.5, "ts": ts, "steps": steps,
+             "rots": rots, "ops": ops}
+        if k % 4 == 3:
+            c["flavour"] = FLAVOURS[(k // 4) % 6]
+            if c["flavour"] == "shared":                      # stationary stretches share ONE matrix object
+                c["route"] = "se3"
+                c["rots"] = [rots[0]] * n
+                c["steps"] = [s_ if r.random() < 0.4 else [0, 0, 0] for s_ in steps]
+        yield c
+
+
+def gen_ids(ctx):
+    """reduce_to_ids with arbitrary index lists: identity, permuted, repeated, empty; list / ndarray / tuple"""
+    r = ctx.rng
+    for k in range(1200 if ctx.thorough else 300):
+        n = r.choice([1, 2, 3, 4, 7, 8, 9, r.randint(1, 40)])
+        style = k % 5
+        if style == 0:
+            ids = list(range(n))
+        elif style == 1:
+            ids = r.sample(range(n), r.randint(1, n))
+        elif style == 2:
+            ids = [r.randrange(n) for _ in range(r.randint(1, n + 3))]
+        elif style == 3:
+            ids = []
+        else:
+            ids = sorted(r.sample(range(n), r.randint(1, n)))
+        yield {"kind": "ids", "n": n, "ids": ids, "as": ("list", "ndarray", "tuple", "np32")[k % 4], "rep": ("xyz", "se3", "path")[k % 3],
+               "flavour": r.choice([None, None] + FLAVOURS)}
 
 
 def gen_cases(ctx):
     yield from gen_hist(ctx)
+    yield from gen_ids(ctx)
     yield from gen_motion(ctx)
     yield from gen_crop(ctx)
     yield from gen_split(ctx)
@@ -447,12 +563,15 @@ def impl_ds(case):
     n, N, rep = case["n"], case["N"], case["rep"]
     xyz, quat, stamps, _ = base_arrays(n)
     poses = base_poses(n) if rep == "se3" else None
+    f = case.get("flavour")
+    N = {"np64": np.int64, "np32": np.int32}.get(case.get("Ntype"), int)(N)
     if rep == "xyz":
-        tr = PoseTrajectory3D(xyz, quat, stamps)
+        tr = PoseTrajectory3D(flav(xyz, f), flav(quat, f if f != "int" else None), flav_ts(stamps, f))
     elif rep == "se3":
-        tr = PoseTrajectory3D(poses_se3=list(poses), timestamps=stamps)
+        poses = flav_poses(poses, f) if f else poses
+        tr = PoseTrajectory3D(poses_se3=list(poses), timestamps=flav_ts(stamps, f))
     else:
-        tr = PosePath3D(xyz, quat)
+        tr = PosePath3D(flav(xyz, f), flav(quat, f if f != "int" else None))
     try:
         tr.downsample(N)
     except TrajectoryException:
@@ -524,7 +643,8 @@ def impl_crop(case):
     ts = np.array(case["ts"], dtype=float)
     n = len(ts)
     xyz, quat = payload(n)
-    tr = PoseTrajectory3D(xyz, quat, ts)
+    f = case.get("flavour")
+    tr = PoseTrajectory3D(flav(xyz, f), flav(quat, f if f != "int" else None), flav_ts(ts, f))
     try:
         tr.reduce_to_time_range(case["s"], case["e"])
     except TrajectoryException:
@@ -546,8 +666,10 @@ def split_traj(case):
         pos = [[float(k), 1.0, 0.0] for k in range(n)]
     else:
         pos = positions_of(case["steps"][: n - 1], case.get("start", (0.0, 0.0, 0.0)))
-    poses = [se3(rotz_deg(90.0 * (i % 4)), pos[i]) for i in range(n)]
-    return PoseTrajectory3D(poses_se3=poses, timestamps=ts), [p.copy() for p in poses], ts
+    poses = [se3(rotz_deg(90.0 * (i % 4)) if case.get("flavour") != "shared" else np.eye(3), pos[i]) for i in range(n)]
+    keep = [p.copy() for p in poses]
+    f = case.get("flavour")
+    return PoseTrajectory3D(poses_se3=flav_poses(poses, f) if f else poses, timestamps=flav_ts(ts, f)), keep, ts
 
 
 def impl_split(case):
@@ -596,6 +718,8 @@ def merge_inputs(case):
 def impl_merge(case):
     from evo.core import trajectory
     trs = merge_inputs(case)
+    if "twice" in case:
+        trs = trs + [trs[case["twice"]]]
     cs = np.concatenate([t.timestamps for t in trs])
     cx = np.concatenate([t.positions_xyz for t in trs])
     cq = np.concatenate([t.orientations_quat_wxyz for t in trs])
@@ -603,10 +727,16 @@ def impl_merge(case):
         m = trajectory.merge(trs)
     except Exception as e:
         return {"raised": type(e).__name__ + ": " + str(e)[:80]}
-    order = [int(v) for v in m.positions_xyz[:, 0]]
-    qmap = {cq[i].tobytes(): i for i in range(len(cq))}
-    qorder = [qmap.get(np.asarray(q).tobytes(), -1) for q in m.orientations_quat_wxyz]
     n = len(cs)
+    # payload -> positions in the concatenation (two for the poses of an object passed twice), handed out in order
+    slots, qslots = {}, {}
+    for i in range(n):
+        slots.setdefault(int(cx[i][0]), []).append(i)
+        qslots.setdefault(cq[i].tobytes(), []).append(i)
+    slots = {k_: list(v) for k_, v in slots.items()}
+    order = [(slots.get(int(v)) or [-1]).pop(0) if slots.get(int(v)) else -1 for v in m.positions_xyz[:, 0]]
+    qorder = [qslots[np.asarray(q).tobytes()].pop(0) if qslots.get(np.asarray(q).tobytes()) else -1
+              for q in m.orientations_quat_wxyz]
     valid = len(order) == len(m.timestamps) == len(m.orientations_quat_wxyz) and all(0 <= i < n for i in order)
     own_stamp = valid and all(m.timestamps[k] == cs[i] for k, i in enumerate(order))
     own_quat = valid and all(np.array_equal(m.orientations_quat_wxyz[k], cq[i]) for k, i in enumerate(order))
@@ -625,13 +755,15 @@ def g24_quat(g):
     return _QUAT[g]
 
 
-def build_traj(poses, route):
-    """poses: list of (pos, g, stamp)"""
+def build_traj(poses, route, f=None):
+    """poses: list of (pos, g, stamp); f: array flavour of the inputs"""
     from evo.core.trajectory import PoseTrajectory3D
-    ts = np.array([p[2] for p in poses], dtype=float)
+    ts = flav_ts(np.array([p[2] for p in poses], dtype=float), f)
     if route == "se3":
-        return PoseTrajectory3D(poses_se3=[se3(np.array(G24[p[1]], dtype=float), p[0]) for p in poses], timestamps=ts)
-    return PoseTrajectory3D(np.array([p[0] for p in poses], dtype=float), np.array([g24_quat(p[1]) for p in poses]), ts)
+        mats = [se3(np.array(G24[p[1]], dtype=float), p[0]) for p in poses]
+        return PoseTrajectory3D(poses_se3=flav_poses(mats, f) if f else mats, timestamps=ts)
+    return PoseTrajectory3D(flav(np.array([p[0] for p in poses], dtype=float), f),
+                            flav(np.array([g24_quat(p[1]) for p in poses]), f if f != "int" else None), ts)
 
 
 def content_ok(tr, poses):
@@ -666,7 +798,7 @@ def impl_hist(case):
     from evo.core.filters import FilterException
     pos = positions_of(case["steps"])
     cur = [(pos[i], case["rots"][i], float(case["ts"][i])) for i in range(len(case["ts"]))]
-    tr = build_traj(cur, case["route"])
+    tr = build_traj(cur, case["route"], case.get("flavour"))
     recs = []
     for k, op in enumerate(case["ops"]):
         if not cur:
@@ -679,7 +811,9 @@ def impl_hist(case):
         try:
             if name == "read":
                 rec["op"] = "read " + op["what"]
-                getattr(tr, op["what"])
+                v = getattr(tr, op["what"])
+                if callable(v):
+                    v()
                 rec["unchanged"] = content_ok(tr, cur) if case["inspect"] else (
                     tr.num_poses == len(cur) and np.array_equal(tr.timestamps, np.array(geo["ts"])))
                 continue
@@ -703,7 +837,7 @@ def impl_hist(case):
                 continue
             if name == "merge":
                 other = [(list(map(float, op["pos"][i])), op["rots"][i], float(op["stamps"][i])) for i in range(len(op["stamps"]))]
-                otr = build_traj(other, op["route"])
+                otr = build_traj(other, op["route"], case.get("flavour"))
                 pair = [(tr, cur), (otr, other)] if op["first"] else [(otr, other), (tr, cur)]
                 conc = pair[0][1] + pair[1][1]
                 rec["sub"] = {"kind": "merge", "stamps": [[p[2] for p in pair[0][1]], [p[2] for p in pair[1][1]]]}
@@ -722,7 +856,7 @@ def impl_hist(case):
             # ---- selectors (reduce the object in place)
             if name == "downsample":
                 rec["sub"] = {"kind": "ds", "n": len(cur), "N": op["N"], "rep": case["route"]}
-                call = lambda: tr.downsample(op["N"])  # noqa: E731
+                call = lambda: tr.downsample(np.int64(op["N"]) if k % 2 else op["N"])  # noqa: E731
             elif name == "motion":
                 rec["sub"] = dict(geo, kind="motion", d=op["d"], a=op["a"], degrees=True)
                 call = lambda: tr.motion_filter(op["d"], op["a"], True)  # noqa: E731
@@ -756,10 +890,70 @@ def impl_hist(case):
     return {"recs": recs, "final_ok": final_ok}
 
 
+def impl_ids(case):
+    from evo.core.trajectory import PoseTrajectory3D, PosePath3D
+    n, rep, f = case["n"], case["rep"], case.get("flavour")
+    xyz, quat, stamps, _ = base_arrays(n)
+    poses = base_poses(n)
+    if rep == "xyz":
+        tr = PoseTrajectory3D(flav(xyz, f), flav(quat, f if f != "int" else None), flav_ts(stamps, f))
+    elif rep == "se3":
+        tr = PoseTrajectory3D(poses_se3=list(flav_poses(poses, f) if f else poses), timestamps=flav_ts(stamps, f))
+    else:
+        tr = PosePath3D(flav(xyz, f), flav(quat, f if f != "int" else None))
+    ids = case["ids"]
+    arg = {"list": list(ids), "tuple": list(ids), "ndarray": np.array(ids, dtype=int), "np32": np.array(ids, dtype=np.int32)}[case["as"]]
+    try:
+        tr.reduce_to_ids(arg)
+        got = np.asarray(tr.positions_xyz).reshape(-1, 3)[:, 0].astype(int).tolist()
+        sel = np.array(got, dtype=int)
+        ok = tr.num_poses == len(got) and all(0 <= i < n for i in got)
+        ok = ok and np.array_equal(np.asarray(tr.positions_xyz).reshape(-1, 3), xyz[sel].reshape(-1, 3))
+        if rep == "se3":
+            ok = ok and all(np.array_equal(p, poses[i]) for p, i in zip(tr.poses_se3, got))
+        else:
+            ok = ok and np.array_equal(np.asarray(tr.orientations_quat_wxyz).reshape(-1, 4), quat[sel].reshape(-1, 4))
+        if rep != "path":
+            ok = ok and np.array_equal(tr.timestamps, stamps[sel])
+    except Exception as e:
+        return {"raised": type(e).__name__ + ": " + str(e)[:80]}
+    return {"ids": got, "together": bool(ok)}
+
+
+def judge_ids(ctx, case, impl, out):
+    if judge_common(ctx, case, impl):
+        ctx.record(case, False)
+        return
+    model = parse_ids(out)
+    if impl["ids"] != model:
+        ctx.mismatch(case, "reduce_to_ids differs from Evo.reduceIds", impl["ids"][:40], model[:40])
+    if impl["ids"] != list(case["ids"]):
+        ctx.fail(case, "reduce-to-ids", f"kept {impl['ids'][:12]}, requested {case['ids'][:12]}")
+    if not impl["together"]:
+        ctx.fail(case, "kept-together", "reduce_to_ids: position/orientation/timestamp of a kept pose differ from the input pose")
+    ids = case["ids"]
+    ctx.count("branch", "ids:empty" if not ids else "ids:repeated" if len(set(ids)) < len(ids) else
+              "ids:increasing" if is_increasing(ids) else "ids:permuted")
+    ctx.record(case, 0 < len(ids) and ids != list(range(case["n"])))
+
+
+def safe_impl(case):
+    """L12: nothing evo returns may crash the harness; an exception while converting its output is a failure"""
+    try:
+        return run_impl(case)
+    except Exception as e:
+        err = {"raised": "while reading evo's output: " + type(e).__name__ + ": " + str(e)[:80]}
+        if case["kind"] == "hist":
+            return {"recs": [{"k": 0, "op": "?", "n_before": 0, "sub": {"kind": "raised"}, "impl": err}], "final_ok": True}
+        return err
+
+
 def run_impl(case):
     k = case["kind"]
     if k == "hist":
         return impl_hist(case)
+    if k == "ids":
+        return impl_ids(case)
     if k == "ds":
         return impl_ds(case)
     if k == "motion":
@@ -829,7 +1023,10 @@ def model_line(case):
         lens, _ = step_lengths(case, len(case["ts"]))
         return f"C11 splits {rat(case['thr'])} {ratlist([l for l, _ in lens])} {ratlist(case['ts'])}"
     if k == "merge":
-        return f"C11 merge {len(case['stamps'])} " + " ".join(ratlist(s) for s in case["stamps"])
+        st = case["stamps"] + ([case["stamps"][case["twice"]]] if "twice" in case else [])
+        return f"C11 merge {len(st)} " + " ".join(ratlist(s) for s in st)
+    if k == "ids":
+        return f"C11 reduce {case['n']} {core.natlist(case['ids'])}"
     raise ValueError(k)
 
 
@@ -1129,7 +1326,7 @@ def judge_merge(ctx, case, impl, out):
     m_order = parse_ids(mo)
     m_qorder = parse_ids(mq)
     m_stamps = [core.parse_rat(x) for x in ms.split()]
-    cs = [frac(t) for s in case["stamps"] for t in s]
+    cs = [frac(t) for s in case["stamps"] + ([case["stamps"][case["twice"]]] if "twice" in case else []) for t in s]
     n = len(cs)
     order = impl["order"]
     got_stamps = [frac(t) for t in impl["stamps"]]
@@ -1158,10 +1355,12 @@ def judge_merge(ctx, case, impl, out):
     if order != m_order:
         ctx.count("branch", "merge:tie-order-differs-from-stable")
     ctx.count("dist", f"merge:{len(case['stamps'])}-trajectories")
+    if "twice" in case:
+        ctx.count("branch", "merge:same-object-twice")
     ctx.record(case, order != list(range(n)))
 
 
-JUDGE = {"ds": judge_ds, "motion": judge_motion, "crop": judge_crop, "merge": judge_merge,
+JUDGE = {"ids": judge_ids, "ds": judge_ds, "motion": judge_motion, "crop": judge_crop, "merge": judge_merge,
          "splitt": judge_split, "splitd": judge_split, "splits": judge_split}
 
 
@@ -1247,10 +1446,13 @@ def evaluate(ctx, cases):
     lines = [model_line(c) for c in plain]
     with ThreadPoolExecutor(max_workers=1) as ex:
         fut = ex.submit(run_driver_parallel, lines)       # the driver works while evo is being called
-        himpls = [run_impl(c) for c in hist]
+        himpls = [safe_impl(c) for c in hist]
         hlines = [hist_lines(i) for i in himpls]
-        impls = [run_impl(c) for c in plain]
+        impls = [safe_impl(c) for c in plain]
         outs = fut.result()
+    for c in cases:
+        if c.get("flavour"):
+            ctx.count("dist", f"input-flavour:{c['flavour']}:{c['kind']}")
     flat = [l for ls in hlines for l in ls]
     houts = run_driver_parallel(flat) if flat else []
     at = 0
@@ -1266,6 +1468,15 @@ def evaluate(ctx, cases):
 # ----------------------------------------------------------------------------- shrinking
 def shrink(case):
     k = case["kind"]
+    if k == "ids":
+        ids = case["ids"]
+        for i in range(len(ids)):
+            yield dict(case, ids=ids[:i] + ids[i + 1:])
+        if case["n"] > 1 and all(i < case["n"] - 1 for i in ids):
+            yield dict(case, n=case["n"] - 1)
+        if case.get("flavour"):
+            yield dict(case, flavour=None)
+        return
     if k == "hist":
         ops = case["ops"]
         for i in range(len(ops)):
@@ -1299,6 +1510,8 @@ def shrink(case):
             yield dict(case, ts=ts[:-1])
         return
     # motion / splitters: drop a prefix or suffix of poses
+    if "steps" not in case and "ts" not in case:
+        return
     per_pose = [key for key in ("rots", "quats", "heads", "ts") if key in case]
     n = len(case[per_pose[0]]) if per_pose else len(case["steps"]) + 1
     for lo, hi in ((0, n // 2), (n // 2, n), (1, n), (0, n - 1)):
